@@ -478,7 +478,8 @@ def c09(run):
     r_freshlabel.run(run, P)
     from rules import r_elemshift
     from rules import r_misc12 as _m12
-    _m12.run_filter_field_recorded(run, P)   # a duplicated final response of a block-wise upload is filtered: at most one delivery per transfer
+    if run.cfg == 'base' or P.has('handle_response'):   # a server-only configuration has no response side
+        _m12.run_filter_field_recorded(run, P)   # a duplicated final response of a block-wise upload is filtered: at most one delivery per transfer
     r_elemshift.run(run, P)              # the sorted list of requested Q-Block2 numbers (and the received-block ranges) are edited by whole elements, in the direction the count says
     run.min_instances('R-RELEASE-ONCE', 5)
     run.assumptions = ASSUME_COMMON + ["body integrity, tiling, at-most-once delivery, token hiding and size fitting (arithmetic over runtime lengths and schedules) are NOT decided",
